@@ -210,6 +210,20 @@ pub fn main(a: Args) -> i32 {
             l.extend(excludes.drain(..).take(1));
             excludes = l;
         }
+        // one list in eight: a pattern containing `/` that names an existing DIRECTORY of the trees (the parent of a nested
+        // file, literally or with its first component as `*`): it matches whole relative paths only, so it excludes nothing
+        // beneath that directory - on either side, in any direction
+        if r.chance(1, 8) {
+            let nested: Vec<&String> = src.iter().map(|x| &x.0).chain(dst.iter().map(|x| &x.0)).filter(|p| p.matches('/').count() >= 2).collect();
+            if !nested.is_empty() {
+                let p = (*r.pick(&nested)).clone();
+                let parent = p.rsplitn(2, '/').nth(1).unwrap_or("").to_string();
+                if !parent.is_empty() && !parent.contains('*') && !parent.contains('?') {
+                    let pat = if r.chance(1, 2) { parent.clone() } else { format!("*/{}", parent.splitn(2, '/').nth(1).unwrap_or("")) };
+                    if pat.contains('/') && !pat.ends_with('/') { excludes.push(pat); }
+                }
+            }
+        }
         let jobs = *r.pick(&[1usize, 2, 4, 16]);
         let mut dir = r.below(3); // 0 local, 1 push, 2 pull
         if a.replay.is_none() && (it == 3 || it == 4) {
@@ -242,6 +256,21 @@ pub fn main(a: Args) -> i32 {
                     }
                 }
             }
+        }
+        if a.replay.is_none() && (5..=7).contains(&it) {
+            // directed: a pattern containing `/` that is exactly the path of a DIRECTORY present on both sides with identical
+            // files beneath it (one more file differs elsewhere): the pattern excludes nothing, and nothing under that
+            // directory is sent - not in the first run and not in the second
+            dir = (it - 5) as u64;
+            del = it == 6;
+            src.clear(); dst.clear();
+            for (p, c) in [("build/out/a.o", &pool[2]), ("build/out/deep/b.o", &pool[3]), ("build/keep.txt", &pool[1])] {
+                src.push((p.to_string(), c.clone(), 1_650_000_000, 0));
+                dst.push((p.to_string(), c.clone(), 1_650_000_000, 0));
+            }
+            src.push(("changed.txt".to_string(), pool[2].clone(), 1_650_000_100, 0));
+            dst.push(("changed.txt".to_string(), pool[3].clone(), 1_650_000_000, 0));
+            excludes = vec![if it == 7 { "*/out".to_string() } else { "build/out".to_string() }];
         }
         let verbose = r.chance(1, 4);
         write_tree(&srcd, &src);
